@@ -58,7 +58,9 @@ StateTags(r, st) ==
     \cup (IF \E e \in DOMAIN st.paths : \E i \in 2..(Len(st.paths[e]) - 1) :
               LET pp == st.paths[e][i]  q == st.nodes[pp[1] + 1] IN pp[2] = 4 \/ ~(\E cn \in 1..4 : Abs(Corners(q)[cn][1] - pp[3]) <= TOL /\ Abs(Corners(q)[cn][2] - pp[4]) <= TOL)
           THEN {"bend-not-on-a-node-corner"} ELSE {})
+\* dim 2 = a resize (topology::applyResizes moves in both axes inside one call): the state clauses alone are judged
 StepTags(r, s1, s2, dim) ==
+    IF dim = 2 THEN {} ELSE
     IF \E e \in DOMAIN s1.paths, v \in DOMAIN s1.nodes : v \notin EndNodes(r, e) /\
           \E side \in {-1, 1} : SideCount(s1.paths[e], s1.nodes[v], dim, side) # SideCount(s2.paths[e], s2.nodes[v], dim, side)
     THEN {"edge-changed-side-of-a-node"} ELSE {}
